@@ -101,6 +101,24 @@ def rule_c15_3(ck):
                    "utils.%s folds to %s, the type tests of the package rely on %s" % (name, sorted(d) if d else d, sorted(want)), "jsonrpclib/utils.py")
 
 
+def _outside_domain(prog, g, dom, rn):
+    """the return is reached only when isinstance(obj, ...) failed for the list-like types and for dict"""
+    ruled_out = set()
+    for d in dom[rn.id]:
+        b = g.nodes[d]
+        if b.kind == "branch" and isinstance(b.test, ast.Call) and dump(b.test.func) == "isinstance" and len(b.test.args) == 2 and \
+                dump(b.test.args[0]) == "obj":
+            ts = prog.typeset("jsonclass", b.test.args[1])
+            if ts and b.polarity is False:
+                ruled_out |= set(ts)
+        if b.kind == "branch" and isinstance(b.test, ast.UnaryOp) and isinstance(b.test.op, ast.Not) and isinstance(b.test.operand, ast.Call) and \
+                dump(b.test.operand.func) == "isinstance" and len(b.test.operand.args) == 2 and dump(b.test.operand.args[0]) == "obj":
+            ts = prog.typeset("jsonclass", b.test.operand.args[1])
+            if ts and b.polarity is True:
+                ruled_out |= set(ts)
+    return {"list", "dict"} <= ruled_out
+
+
 def check(ck):
     prog = ck.prog
     fdump = prog.func("jsonclass", "dump")
@@ -299,6 +317,10 @@ def check(ck):
             elif fi is fload and isinstance(v, ast.Name) and all(a[0] == "call" for a in prov.alts(t)) and v.id == "new_obj":
                 kind = "object"
                 ck.ok("C15.2", "%s: `%s`" % (q.fn(fi), q.stmt_text(rn)), "constructed object", q.loc(fi, rn))
+            elif t == ("param", "obj") and _outside_domain(prog, g, dom, rn):
+                kind = "foreign"
+                ck.ok("C15.2", "%s: `%s`" % (q.fn(fi), q.stmt_text(rn)), "a value that is neither a primitive, a list-like nor a dictionary is handed back as it is "
+                      "(outside the data the property speaks about)", q.loc(fi, rn))
             else:
                 ck.bad("C15.2", "%s: `%s`" % (q.fn(fi), q.stmt_text(rn)[:60]),
                        "%s can return %s, which is none of the allowed output constructors (argument itself for primitives, list / "
